@@ -427,7 +427,9 @@ def workload(ctx):
                 ctx.case(("big", n), True, n=0)
                 ctx.count("big_expressions")
                 ctx.run("C09.counts", e)
-                ctx.run("C09.deps", (e, rng.sample(FLAGS, 4)))
+                fl = rng.sample(FLAGS, 4)
+                if n <= 2600:       # (folding 12000 result sets pairwise is quadratic: a cost,
+                    ctx.run("C09.deps", (e, fl))    # 19 s of the 20 s CPU budget, no verdict)
         for w in scale.WIDTHS:
             if not ctx.mine("wide"):
                 continue
